@@ -98,6 +98,7 @@ fn reserved_tokens(run: &Arc<Run>) {
 
 fn main() {
     let run = Run::new("C03", "model_checking");
+    vp_net::maybe_replay(&run);
     reserved_tokens(&run);
     let mut outcomes = Vec::new();
     let mut cfgs: Vec<Cfg> = Vec::new();
